@@ -1051,14 +1051,17 @@ impl Probe {
     }
 
     /// Compares with `incoming` records. Postpone probe and retry if we yield.
-    pub(crate) fn tiebreaking(&mut self, msg: &DnsIncoming, probe_name: &str) {
+    ///
+    /// Returns the new time to send the next query if the probe is postponed.
+    /// The caller should set a timer for it.
+    pub(crate) fn tiebreaking(&mut self, msg: &DnsIncoming, probe_name: &str) -> Option<u64> {
         let now = crate::current_time_millis();
 
         // Only do tiebreaking if probe already started.
         // This check also helps avoid redo tiebreaking if start time
         // was postponed.
         if self.start_time >= now {
-            return;
+            return None;
         }
 
         let incoming: Vec<_> = msg
@@ -1099,9 +1102,11 @@ impl Probe {
                 debug!("tiebreaking '{probe_name}': LOST, will wait for one second",);
                 self.start_time = now + 1000; // wait and restart.
                 self.next_send = now + 1000;
+                Some(self.next_send)
             }
             ordering => {
                 debug!("tiebreaking '{probe_name}': {:?}", ordering);
+                None
             }
         }
     }
